@@ -266,12 +266,28 @@ def gen_tree(rng, depth, atoms=None):
     return [k, [gen_tree(rng, depth - 1, atoms) for _ in range(n)]]
 
 
+def gen_prec(rng, lvl, nest, size=3):
+    """a tree shaped along the precedence levels (juxtaposition > | > & > ! > operand): it can be written without
+    parentheses; an operand is, `nest` permitting, now and then a whole sub-expression (which then needs a group)"""
+    def items(sub):
+        return [gen_prec(rng, sub, nest, size) for _ in range(rng.weighted([(5, 2), (3, 3), (1, 4)]) if size >= 3 else 2)]
+    if lvl == 4: return ["A", items(3)] if rng.chance(0.35) else gen_prec(rng, 3, nest, size)
+    if lvl == 3: return ["O", items(2)] if rng.chance(0.4) else gen_prec(rng, 2, nest, size)
+    if lvl == 2: return ["A", items(1)] if rng.chance(0.4) else gen_prec(rng, 1, nest, size)
+    if lvl == 1: return ["N", gen_prec(rng, 1, nest, size)] if rng.chance(0.3) else gen_prec(rng, 0, nest, size)
+    if nest > 0 and rng.chance(0.12):
+        t = gen_prec(rng, 4, nest - 1, 2)
+        if t[0] in "AO": return t
+    return gen_atom(rng)
+
+
 class Renderer:
     """mirror of the Lean concrete syntax (Model/C42_Spec.lean): every token carries its leading whitespace;
     an unquoted word must be followed by whitespace, `)` or the end; juxtaposed terms are separated by whitespace"""
 
-    def __init__(self, rng, max_group, p_redundant=0.12, canonical=False):
+    def __init__(self, rng, max_group, p_redundant=0.12, canonical=False, max_count=99):
         self.rng, self.max_group, self.p_red, self.canon = rng, max_group, p_redundant, canonical
+        self.max_count, self.count = max_count, 0
 
     def ows(self):
         if self.canon: return ""
@@ -316,7 +332,8 @@ class Renderer:
         if t[0] in "URI" and not (g < self.max_group and self.rng.chance(self.p_red)):
             s, w = self.atom(t)
             return self.ows() + s, w
-        if g >= self.max_group: raise Skip()
+        self.count += 1
+        if g >= self.max_group or self.count > self.max_count: raise Skip()
         s, _ = self.r4(t, g + 1)
         return self.ows() + "(" + s + self.ows() + ")", False
 
@@ -345,7 +362,8 @@ class Renderer:
         return self.r2(t, g)
 
     def r4(self, t, g):
-        if t[0] == "A" and self.rng.chance(0.5):
+        nested = t[0] == "A" and any(x[0] in "AO" for x in t[1])
+        if t[0] == "A" and (self.rng.chance(0.9 if nested else 0.5) or (nested and g >= self.max_group)):
             out, w = self.r3(t[1][0], g)
             for x in t[1][1:]:
                 s, w = self.r3(x, g)
@@ -354,6 +372,7 @@ class Renderer:
         return self.r3(t, g)
 
     def render(self, t):
+        self.count = 0
         s, _ = self.r4(t, 0)
         return s + self.ows()
 
@@ -361,7 +380,8 @@ class Renderer:
 MUT_ALPHABET = list("()!&|~\"'\\ \t\nabq3x24u0") + ["~q", "~u ", "~c ", "~hq ", "~marker ", "~all", " & ", " | ", "\\\"", "é"]
 
 
-QUOTE_SOUP = ["\\", "\\\\", "x", "u", "0", "3", "2", "4", "a", "F", "g", "t", "n", "r", "f", "7", "\"", "'", " ", "\t", "\n", "\r", "é", "(", "~"]
+MUT_NOPAREN = [x for x in MUT_ALPHABET if x != "("]
+QUOTE_SOUP = ["\\", "\\\\", "x", "u", "0", "3", "2", "4", "a", "F", "g", "t", "n", "r", "f", "7", "\"", "'", " ", "\t", "\n", "\r", "é", "~", "("]
 
 
 class Check(PropertyCheck):
@@ -390,7 +410,7 @@ class Check(PropertyCheck):
             "(thorough); ~15% mutated or raw strings for the model tie only. distinct = distinct rendered string; non-trivial = at "
             "least one operator or a regex argument.")
     budget = {"quick": 1500, "thorough": 200000}
-    time_budget = {"quick": 36, "thorough": 560}
+    time_budget = {"quick": 24, "thorough": 540}
     fingerprints = ["mitmproxy.flowfilter:_make", "mitmproxy.flowfilter:parse", "mitmproxy.flowfilter:FAnd", "mitmproxy.flowfilter:FOr",
                     "mitmproxy.flowfilter:FNot", "mitmproxy.flowfilter:_Rex.__init__", "mitmproxy.flowfilter:_Int.__init__",
                     "mitmproxy.flowfilter:_Action.make", "mitmproxy.flowfilter:FUrl.make"]
@@ -431,9 +451,10 @@ class Check(PropertyCheck):
             except Exception: pass
 
     # ---- generator -----------------------------------------------------------------------------
-    def _case(self, tree, rng, canonical=False):
-        r = Renderer(rng, MAX_GROUP[self.tier if hasattr(self, "tier") else "quick"], canonical=canonical,
-                     p_redundant=0.0 if canonical else 0.12)
+    def _case(self, tree, rng, canonical=False, p_red=0.10, groups=None):
+        """one rendering of `tree`; groups = (max nesting, max number) of parenthesised groups, None: the tier's cap"""
+        nest, count = groups if groups is not None else (MAX_GROUP[getattr(self, "tier", "quick")], 99)
+        r = Renderer(rng, nest, canonical=canonical, p_redundant=0.0 if canonical else p_red, max_count=count)
         for _ in range(4):
             try: return {"kind": "render", "tree": tree, "s_hex": tx(r.render(tree))}
             except Skip: r.p_red = 0.0
@@ -444,40 +465,50 @@ class Check(PropertyCheck):
         maxd = 4 if tier == "quick" else 6
         if tier == "thorough":
             for c in self.exhaustive(tier): yield c
+        # pyparsing needs ~10 ms for an expression without parentheses, ~100 ms with one group, 0.3-1 s with two levels
+        GROUPS = {"quick": [(80, (0, 0)), (17, (1, 1)), (3, (2, 3))],
+                  "thorough": [(50, (0, 0)), (30, (1, 2)), (15, (2, 4)), (5, (3, 6))]}[tier]
         while True:
             r = rng.random()
-            if r < 0.85:
+            gb = rng.weighted(GROUPS)
+            if r < 0.60:
+                c = self._case(gen_prec(rng, 4, gb[0]), rng, p_red=0.03 if gb[0] else 0.0, groups=gb)
+                if c: yield c
+            elif r < 0.85:
                 d = rng.weighted([(2, 1), (4, 2), (3, 3), (2, 4)] + ([(1, 5), (1, 6)] if maxd > 4 else []))
-                c = self._case(gen_tree(rng, d), rng)
+                c = self._case(gen_tree(rng, d), rng, groups=gb if gb[0] else (1, 2)) if gb[0] else \
+                    self._case(gen_prec(rng, 4, 0, 4), rng, p_red=0.0, groups=(0, 0))
                 if c: yield c
             elif r < 0.95:
-                c = self._case(gen_tree(rng, rng.randint(1, 3)), rng)
+                c = self._case(gen_prec(rng, 4, gb[0]), rng, groups=gb)
                 if not c: continue
                 s = list(untx(c["s_hex"]))
+                alpha = MUT_ALPHABET if gb[0] else MUT_NOPAREN
                 for _ in range(rng.randint(1, 3)):
                     i = rng.randint(0, len(s))
                     m = rng.random()
                     if m < 0.4 and s: del s[min(i, len(s) - 1)]
-                    elif m < 0.8: s[i:i] = list(rng.pick(MUT_ALPHABET))
-                    elif s: s[min(i, len(s) - 1)] = rng.pick(MUT_ALPHABET)
-                yield self._raw("".join(s))
+                    elif m < 0.8: s[i:i] = list(rng.pick(alpha))
+                    elif s: s[min(i, len(s) - 1)] = rng.pick(alpha)
+                yield self._raw("".join(s), 3 if tier == "thorough" else 1)
             elif r < 0.975:
-                yield self._raw("".join(rng.pick(MUT_ALPHABET) for _ in range(rng.randint(1, 10))))
+                alpha = MUT_ALPHABET if gb[0] else MUT_NOPAREN
+                yield self._raw("".join(rng.pick(alpha) for _ in range(rng.randint(1, 10))), 3 if tier == "thorough" else 1)
             else:
                 # escape soup inside a quoted argument (what pyparsing's unquoting really does), and code/word boundaries
                 q = rng.pick("\"'")
-                body = "".join(rng.pick(QUOTE_SOUP) for _ in range(rng.randint(0, 8)))
-                pre = rng.pick(["", "~u ", "~b", "~h  ", "~c ", "~q", "!", "a "])
-                post = rng.pick(["", "", " b", "&c", ")", "~q", "x"])
-                yield self._raw(pre + q + body + (q if rng.chance(0.9) else "") + post)
+                body = "".join(rng.pick(QUOTE_SOUP[:-1] if not gb[0] else QUOTE_SOUP) for _ in range(rng.randint(0, 8)))
+                pre = rng.pick(["", "~u ", "~b", "~h  ", "~c ", "~q", "!", "a ", "~c 12", "~cx ", "~hq\t"])
+                post = rng.pick(["", "", " b", "&c", ")", "~q", "x", "|", " | d"])
+                yield self._raw(pre + q + body + (q if rng.chance(0.9) else "") + post, 1)
 
-    def _raw(self, s):
-        # keep pyparsing's exponential re-parsing in check: at most 3 opening parentheses in a raw string
+    def _raw(self, s, max_open=3):
+        # keep pyparsing's exponential re-parsing in check: at most `max_open` opening parentheses in a raw string
         out, n = [], 0
         for ch in s:
             if ch == "(":
                 n += 1
-                if n > 3: continue
+                if n > max_open: continue
             out.append(ch)
         return {"kind": "raw", "s_hex": tx("".join(out))}
 
@@ -507,6 +538,37 @@ class Check(PropertyCheck):
         for a in d1[5:]:
             c = self._case(["N", a], rng)
             if c: yield c
+
+    def shrink_candidates(self, case):
+        """render cases: the canonical layout, every proper subtree, the tree with one member of a run dropped;
+        raw cases: one character dropped"""
+        from common.prng import Rng
+        rng = Rng(7)
+        if case.get("kind") == "render":
+            t = case["tree"]
+            def subs(t):
+                if t[0] == "N": yield t[1]
+                elif t[0] in "AO":
+                    for x in t[1]: yield x
+                    if len(t[1]) > 2:
+                        for i in range(len(t[1])): yield [t[0], t[1][:i] + t[1][i + 1:]]
+            def smaller(t):
+                """t with one subtree replaced by something smaller"""
+                for x in subs(t): yield x
+                if t[0] == "N":
+                    for y in smaller(t[1]): yield ["N", y]
+                elif t[0] in "AO":
+                    for i, x in enumerate(t[1]):
+                        for y in smaller(x): yield [t[0], t[1][:i] + [y] + t[1][i + 1:]]
+            canon = self._case(t, rng, canonical=True, groups=(4, 99))
+            if canon and canon["s_hex"] != case["s_hex"]: yield canon
+            for y in smaller(t):
+                c = self._case(y, rng, canonical=True, groups=(4, 99))
+                if c: yield c
+        else:
+            s = untx(case["s_hex"])
+            for i in range(len(s)):
+                yield {"kind": "raw", "s_hex": tx(s[:i] + s[i + 1:])}
 
     def neighbours(self, case, rng):
         if case.get("kind") == "render":
